@@ -39,7 +39,7 @@ def fam_crash(seed, i, tier):
 
 def fam_reads(seed, i, tier):
     rng = random.Random(sseed(seed, "reads", i))
-    nv = rng.choice([1, 2, 3, 3, 3, 5])
+    nv = rng.choice([1, 2, 3, 3, 4, 5])
     return {"name": "reads-%d-%d" % (seed, i), "family": "reads", "voters": IDS[:nv], "controlled": True, "auto": False,
             "heal": True, "heal_et": 60,
             "random": {"seed": sseed(seed, "reads.r", i), "steps": rng.choice([150, 300]), "reads": True,
@@ -220,6 +220,48 @@ def snaprace_scenarios():
                 tail = ([{"op": "crash", "n": "c"}, {"op": "restart", "n": "c"}] if crash else []) + post
                 out.append({"name": "snaprace-p%d-y%d%s" % (pad, ypos, "-crash" if crash else ""), "family": "snap", "voters": ["a", "b", "c"],
                             "controlled": True, "auto": False, "heal": True, "heal_et": 60, "snap_pad": pad, "stimuli": pre + mid + tail})
+    # leader side: the leader already has a snapshot and a follower that needs one; it takes a second
+    # snapshot, and a replication step towards that follower runs before the new file is written, in
+    # the window after the new file is published but before takeSnapshot has the node's lock again
+    # (gate after:snap_close), or after it.
+    E = [{"op": "fire", "n": "a"}, {"op": "xchg", "kind": "rv", "from": "a", "to": "b"}, {"op": "xchg", "kind": "rv", "from": "a", "to": "b"},
+         {"op": "xchg", "kind": "ae", "from": "a", "to": "b"}]
+    def ops(vals):
+        o = []
+        for v in vals:
+            o += [{"op": "submit", "n": "a", "val": v, "to_ms": 60000}]
+        return o + [{"op": "xchg", "kind": "ae", "from": "a", "to": "b"}, {"op": "hb", "n": "a"}, {"op": "xchg", "kind": "ae", "from": "a", "to": "b"}]
+    IS = [{"op": "hb", "n": "a"}, {"op": "xchg", "kind": "is", "from": "a", "to": "c"}]
+    catchup = []
+    for k in range(3):
+        catchup += [{"op": "hb", "n": "a"}, {"op": "xchg", "kind": "ae", "from": "a", "to": "c"}, {"op": "hb", "n": "a"}, {"op": "xchg", "kind": "is", "from": "a", "to": "c"}]
+    # (a transfer that is already open keeps its file, so the follower's need for a snapshot has to
+    # arise inside the window: the leader was restarted and re-elected - fresh follower state,
+    # nextIndex past the follower's log - and learns from a rejection that the follower is behind
+    # its first snapshot)
+    relect = [{"op": "crash", "n": "a"}, {"op": "restart", "n": "a"}, {"op": "adv", "d": 350}, {"op": "fire", "n": "a"},
+              {"op": "xchg", "kind": "rv", "from": "a", "to": "b"}, {"op": "xchg", "kind": "rv", "from": "a", "to": "b"},
+              {"op": "xchg", "kind": "ae", "from": "a", "to": "b"}]
+    learn = [{"op": "hb", "n": "a"}, {"op": "xchg", "kind": "ae", "from": "a", "to": "c"}]
+    for pad in (100, 40000):
+        for when in ("before", "window", "after"):
+            for crash in (False, True):
+                st = E + ops(["w1", "w2"]) + [{"op": "snapnow", "n": "a"}] + ops(["w3"])       # first snapshot; c was never reached
+                st += relect + ops(["w4", "w5"])
+                if when == "before":
+                    st += learn + IS
+                st += [{"op": "gate", "n": "a", "w": "after:snap_close"}, {"op": "snapnow", "n": "a"}] + ops(["w6"])   # second snapshot parks after publication
+                if when == "window":
+                    st += learn + IS + IS
+                st += [{"op": "release", "n": "a", "w": "after:snap_close"}]
+                if when == "after":
+                    st += learn + IS + IS
+                if crash:
+                    st += [{"op": "crash", "n": "a"}, {"op": "restart", "n": "a"}, {"op": "crash", "n": "c"}, {"op": "restart", "n": "c"}]
+                else:
+                    st += catchup + ops(["w7"]) + catchup
+                out.append({"name": "snaplead-p%d-%s%s" % (pad, when, "-crash" if crash else ""), "family": "snap", "voters": ["a", "b", "c"],
+                            "controlled": True, "auto": False, "heal": True, "heal_et": 60, "snap_pad": pad, "stimuli": st})
     return out
 
 
@@ -446,7 +488,7 @@ RULES = {
 PROPS = {
     "C01": dict(fams=[("core", 3), ("crash", 2), ("snap", 2)], corpus=["core", "crash", "snap"], mc="MC_core3", mc_deep="MC_core3_deep", gen=[("Gen_core3", ["a", "b", "c"], 40)]),
     "C02": dict(fams=[("core", 3), ("crash", 2)], corpus=["core", "crash"], mc="MC_core3", mc_deep="MC_core3_deep", gen=[("Gen_core3", ["a", "b", "c"], 40)]),
-    "C03": dict(fams=[("core", 4), ("crash", 1)], corpus=["core"], mc="MC_core3", mc_deep="MC_core3_deep", gen=[("Gen_core3", ["a", "b", "c"], 40)]),
+    "C03": dict(fams=[("core", 3), ("crash", 1), ("snap", 2)], corpus=["core", "snap"], mc="MC_core3", mc_deep="MC_core3_deep", gen=[("Gen_core3", ["a", "b", "c"], 40)]),
     "C04": dict(fams=[("crash", 5)], corpus=["crash"], mc="MC_crash3", mc_deep="MC_crash3_deep"),
     "C05": dict(fams=[("reads", 5)], corpus=["reads"], mc="MC_reads3", mc_deep="MC_reads3_deep"),
     "C06": dict(fams=[("core", 3), ("crash", 2)], corpus=["core", "crash"], mc="MC_core3", mc_deep="MC_core3_deep", gen=[("Gen_core3", ["a", "b", "c"], 40)], hae=True),
@@ -459,7 +501,7 @@ PROPS = {
     "C11": dict(fams=[("snap", 6)], corpus=["snap"], mc="MC_snap3", mc_deep="MC_snap3_deep", gen=[("Gen_snap3", ["a", "b", "c"], 45)], snaprace=True),
     "C12": dict(storage=True),
     "C13": dict(storage=True),
-    "C15": dict(fams=[("core", 2), ("crash", 2), ("snap", 2), ("member5", 2)], corpus=["core", "crash", "snap", "member"], mc="MC_core3", healstates=True),
+    "C15": dict(fams=[("core", 2), ("crash", 2), ("snap", 2), ("member5", 2)], corpus=["core", "crash", "snap", "member"], mc="MC_heal", mc_deep="MC_heal_deep", mc_module="Heal", healstates=True),
     "C16": dict(fams=[("healthy", 6)], corpus=["healthy"], mc=None),
     "C17": dict(fams=[("lease", 6)], corpus=["lease"], mc="MC_timed", mc_module="RaftTimed"),
     "C18": dict(fams=[("core", 1)], corpus=["api"], api=True, mc=None),
